@@ -27,6 +27,7 @@ MONITOR  = a clause of the property is false on the implementation's own observa
   c01/l2_twin                               contract views differ from a twin node that saw only the best chain
   c01/l2_best_chain                         … differ from the confirmations/resolutions on the best chain (harness-derived diffs)
   c01/l2_update_never_fails/<cause>         the contracts part of the chain update failed or panicked on a real history
+  c06/process_actions_never_fails/<part>/<cause>  ProcessActions (after the committed update) failed or panicked
   c06/ends_successful[/<class>]             a contract whose data the host holds and whose formation was never
                                             disconnected did not end `successful` (class: no_funds, pool_refused,
                                             revision_lost_in_reorg = causes the trace shows; bare = unexplained)
@@ -308,7 +309,9 @@ def step (d : DState) (l : Line) : DState × List Verdict :=
     if res.startsWith "twin_" then
       -- the twin processes the best chain only, forwards: a failure is a finding of its own
       let r := (res.drop 5).toString
-      let name := if lookup l.obs "comp" == some "contracts" then s!"c01/l2_update_never_fails/twin_{resCause r}"
+      let comp := (lookup l.obs "comp").getD "other"
+      let name := if comp == "contracts" then s!"c01/l2_update_never_fails/twin_{resCause r}"
+                  else if comp.startsWith "actions_" then s!"c06/process_actions_never_fails/{comp}/twin_{resCause r}"
                   else s!"c16/update_never_fails/twin_{resCause r}"
       ({ d with dead := true }, [.monitor name res])
     else if res.startsWith "harnesserr" || res.startsWith "fresh_" then ({ d with dead := true }, [.badline res])
@@ -328,16 +331,23 @@ def step (d : DState) (l : Line) : DState × List Verdict :=
       match getStrList l.obs "end" with
       | none => ({ d with dead := true }, [.badline "endcheck fields"])
       | some es =>
-        -- i:status:v1:sectors:stable:expired:refused:revisionConfirmed:fundFailures:lastRejection
+        -- i:status:v1:sectors:stable:expired:refused:revisionConfirmed:fundFailures:lastRejection:tipRefusedFreshAccepts:tipRefusedFreshRefuses:refusedDuringCatchup
         let rows := es.filterMap fun e => match e.splitOn ":" with
-          | [i, st, v1, sec, stable, expd, refused, rc, fund, last] =>
-            some (i, st, v1 == "1", sec.toNat?.getD 0, stable == "1", expd == "1", refused.toNat?.getD 0, rc == "1", fund.toNat?.getD 0, last)
+          | [i, st, v1, sec, stable, expd, refused, rc, fund, last, okv, badv, mid] =>
+            some (i, st, v1 == "1", sec.toNat?.getD 0, stable == "1", expd == "1", refused.toNat?.getD 0, rc == "1", fund.toNat?.getD 0, s!"{last},during_catchup={mid}", okv.toNat?.getD 0, badv.toNat?.getD 0)
           | _ => none
-        let due := rows.filter fun (_, _, v1, sec, stable, expd, _, _, _, _) => !v1 && sec > 0 && stable && expd
-        let bad := due.filter fun (_, st, _, _, _, _, _, _, _, _) => st != "successful"
-        let vs : List Verdict := bad.map fun (i, st, _, sec, _, _, refused, rc, fund, last) =>
-          let cls := if fund > 0 then "/no_funds" else if refused > 0 then "/pool_refused" else if !rc then "/revision_lost_in_reorg" else ""
-          .monitor ("c06/ends_successful" ++ cls) s!"c{i}:status={st},sectors={sec},pool_refusals={refused},fund_failures={fund},revision_confirmed={rc},last_rejection={last}"
+        let due := rows.filter fun (_, _, v1, sec, stable, expd, _, _, _, _, _, _) => !v1 && sec > 0 && stable && expd
+        let bad := due.filter fun (_, st, _, _, _, _, _, _, _, _, _, _) => st != "successful"
+        -- pool_state: every set the pool refused at the tip is accepted by a fresh pool over the same chain store (the very
+        -- same transactions, same tip): provably not the host's transaction; pool_refused: a fresh pool refuses one, too;
+        -- catchup_refused: sets were only refused while the processed index was behind the chain tip
+        let vs : List Verdict := bad.map fun (i, st, _, sec, _, _, refused, rc, fund, last, okv, badv) =>
+          let cls := if fund > 0 then "/no_funds"
+            else if badv > 0 then "/pool_refused"
+            else if okv > 0 then "/pool_state"
+            else if refused > 0 then "/catchup_refused"
+            else if !rc then "/revision_lost_in_reorg" else ""
+          .monitor ("c06/ends_successful" ++ cls) s!"c{i}:status={st},sectors={sec},pool_refusals={refused},refused_at_tip_fresh_pool_accepts={okv},refused_at_tip_fresh_pool_refuses={badv},fund_failures={fund},revision_confirmed={rc},last_rejection={last}"
         ({ d with dead := !vs.isEmpty, dataEnded := d.dataEnded + due.length, dataSuccessful := d.dataSuccessful + (due.length - bad.length) }, vs)
     else if l.op == "fresh" then
       -- model-independent oracle: the living node against a node that only ever saw the best chain
@@ -407,6 +417,7 @@ def step (d : DState) (l : Line) : DState × List Verdict :=
           else resCause res
         let name := if isC17Failure res then s!"c17/update_never_fails/{cause}"
           else if lookup l.obs "comp" == some "contracts" then s!"c01/l2_update_never_fails/{cause}"
+          else if ((lookup l.obs "comp").getD "").startsWith "actions_" then s!"c06/process_actions_never_fails/{(lookup l.obs "comp").getD ""}/{cause}"
           else s!"c16/update_never_fails/{cause}"
         ({ d1 with dead := true }, [.monitor name res])
       else
